@@ -145,6 +145,9 @@ type JLOpts struct {
 	Foreign    bool // a foreign pod occupies the name of attempt 0 of index 0
 	PodLagFree bool // allow the Pod cache to lag behind the Job cache (cache-skew family)
 	Fresh      bool // random scheduler: a pass only begins when both caches are up to date
+	Slow       bool   // random scheduler: kubelets are slow to start containers (tasks stay Pending for long)
+	Flaky      bool   // random scheduler: nodes go down often
+	ForeignBy  string // controller owner of the foreign Pod: "" (ReplicaSet) | "job" (another Job object of the same name) | "none"
 }
 
 type JL struct {
@@ -215,7 +218,14 @@ func NewJL(o JLOpts, t *sw.Tracer, run int) *JL {
 		idx := jobTaskIndex(out.(*execution.Job), 0, 0)
 		name, _ := jobutil.GenerateTaskName(jlName, idx)
 		tr := true
-		fp := &corev1.Pod{ObjectMeta: metav1.ObjectMeta{Name: name, Namespace: ns, OwnerReferences: []metav1.OwnerReference{{APIVersion: "v1", Kind: "ReplicaSet", Name: "other", UID: "foreign-uid", Controller: &tr}}},
+		owners := []metav1.OwnerReference{{APIVersion: "apps/v1", Kind: "ReplicaSet", Name: "other", UID: "foreign-uid", Controller: &tr}}
+		switch o.ForeignBy {
+		case "job": // e.g. a Pod left over from an earlier Job object of the same name
+			owners = []metav1.OwnerReference{{APIVersion: execution.GroupVersion.String(), Kind: execution.KindJob, Name: jlName, UID: "uid-of-an-earlier-job", Controller: &tr, BlockOwnerDeletion: &tr}}
+		case "none":
+			owners = nil
+		}
+		fp := &corev1.Pod{ObjectMeta: metav1.ObjectMeta{Name: name, Namespace: ns, OwnerReferences: owners},
 			Spec: corev1.PodSpec{Containers: []corev1.Container{{Name: "c", Image: "y"}}}}
 		if _, err := j.W.API.Direct("user", ktesting.NewCreateAction(sw.PodsGVR, ns, fp)); err != nil {
 			panic(err)
@@ -663,7 +673,7 @@ func (j *JL) Enabled(rng *rand.Rand, maxTime int, faultP float64, applied bool) 
 		if p.Status.Phase == corev1.PodRunning {
 			add(Label{A: "Kubelet", K: n, X: []string{"Succeeded", "Failed", "Failed", "OOM", "Succeeded"}[rng.Intn(5)]}, 2)
 		} else {
-			if rng.Intn(4) != 0 {
+			if (!j.O.Slow && rng.Intn(4) != 0) || (j.O.Slow && rng.Intn(8) == 0) {
 				add(Label{A: "Kubelet", K: n, X: "Running"}, 2)
 			}
 			if rng.Intn(8) == 0 { // straight to a terminal phase without a Running observation
@@ -753,7 +763,8 @@ type JLSummary struct {
 func randJLOpts(rng *rand.Rand, skew, fresh bool) JLOpts {
 	o := JLOpts{N: 1 + rng.Intn(3), MaxAtt: 1 + rng.Intn(3), Delay: []int{0, 0, 2}[rng.Intn(3)], Strategy: []string{"AllSuccessful", "AnySuccessful"}[rng.Intn(2)],
 		JobPT: []int{-1, -1, 0, 3}[rng.Intn(4)], CfgPT: []int{-1, 0, 4}[rng.Intn(3)], JobTTL: []int{-1, 0, 4}[rng.Intn(3)], CfgTTL: []int{-1, 6}[rng.Intn(2)],
-		CfgFD: []int{-1, 0, 3}[rng.Intn(3)], Forbid: rng.Intn(6) == 0, Foreign: rng.Intn(12) == 0, PodLagFree: skew, Fresh: fresh}
+		CfgFD: []int{-1, 0, 3}[rng.Intn(3)], Forbid: rng.Intn(6) == 0, Foreign: rng.Intn(10) == 0, PodLagFree: skew, Fresh: fresh,
+		Slow: rng.Intn(3) == 0, Flaky: rng.Intn(4) == 0, ForeignBy: []string{"", "job", "none"}[rng.Intn(3)]}
 	o.Par = o.N > 1 || rng.Intn(2) == 0
 	return o
 }
